@@ -96,6 +96,11 @@ def rule_r1(prog, res) -> None:
         raise AnalysisError(f"C16.R1: only {draws} random draws found in the generator classes, minimum 4")
 
 
+def S_reach(prog, fi):
+    """functions reachable from fi through precisely resolved calls, restricted to the reader / generator classes"""
+    return [f for f in summaries(prog).reachable(fi) if f.cls is not None]
+
+
 def rule_r2(prog, res) -> None:
     """reseed dominates the first draw of every pass; generator state from the seed only"""
     base, classes = _generator_classes(prog)
@@ -138,10 +143,35 @@ def rule_r2(prog, res) -> None:
         else:
             res.violation("C16.R2", m, draws[0].ast, f"RandomReader.{m.name} draws without re-seeding first: the probe depends on how often the generator was used before", key_extra=f"{m.name}-no-reseed")
     rst = rr.methods.get("_reset_iter_state")
-    if rst is None or not any(isinstance(c.func, ast.Attribute) and c.func.attr == "reseed" for c in calls_in(rst)):
-        res.violation("C16.R2", rst or rr.methods["__init__"], (rst or rr.methods["__init__"]).node, "starting a pass over the random reader does not re-seed the generator", key_extra="pass-no-reseed")
+    from .. import symx
+
+    skipping = None
+    if rst is not None:
+        # every normal return of the reset passes the re-seed (an early return that depends on the iteration state skips it)
+        rpaths = [p for p in symx.explore(prog, rst, inline=symx.inline_private_helpers(prog)) if p.outcome != "raise"]
+        skipping = [p for p in rpaths if not p.calls("reseed")]
+    if rst is None or skipping is None or skipping or not rpaths:
+        why = f" (skipped when {skipping[0].cond_text()[:80]})" if skipping else ""
+        res.violation("C16.R2", rst or rr.methods["__init__"], (rst or rr.methods["__init__"]).node, f"starting a pass over the random reader does not always re-seed the generator{why}: the points then depend on what was drawn from the generator before", key_extra="pass-no-reseed")
     else:
-        res.ok("C16.R2", res.site(rst), "every pass (_reset_iter_state) re-seeds the generator")
+        res.ok("C16.R2", res.site(rst), f"every pass (_reset_iter_state) re-seeds the generator on all {len(rpaths)} path(s)")
+    # chunks of one pass continue one random stream: nothing reachable from the chunk generation re-seeds
+    gnc = rr.methods.get("_get_next_chunk")
+    if gnc is None:
+        raise AnalysisError("C16.R2: RandomReader._get_next_chunk vanished")
+    res.touch(gnc)
+    reseeders = [f for f in S_reach(prog, gnc) if any(isinstance(c.func, ast.Attribute) and c.func.attr in ("reseed", "default_rng", "seed") for c in calls_in(f))]
+    if reseeders:
+        res.violation(
+            "C16.R2",
+            gnc,
+            gnc.node,
+            f"generating a chunk reaches {sorted(f.qualname for f in reseeders)}, which re-seeds the generator: every chunk restarts the random stream, a catalog of several chunks repeats the same points "
+            "(not uniform, not independent)",
+            key_extra="chunk-reseeds",
+        )
+    else:
+        res.ok("C16.R2", res.site(gnc, "no reseed"), "no re-seeding is reachable from the generation of a chunk: the chunks of a pass are consecutive draws of one stream")
     if n < 1:
         raise AnalysisError("C16.R2: no direct draw outside the chunk loop found (get_probe vanished?)")
 
@@ -177,10 +207,62 @@ def rule_r3(prog, res) -> None:
         res.ok("C16.R3", res.site(da), f"one draw {unparse(d)} indexes both attribute columns")
     else:
         res.violation("C16.R3", da, d, f"row index is drawn as {unparse(d)}: expected self.rng.integers(0, self.data_size, size=<requested size>)", key_extra="index-draw-shape")
+    # the attribute arrays are kept row-aligned: what is stored is each array as given (or a length- and
+    # order-preserving conversion of it), never an independently filtered / reordered copy
+    from .. import symx
+
+    init = base.methods.get("__init__")
+    if init is None:
+        raise AnalysisError("C16.R3: RandomsBase.__init__ vanished")
+    res.touch(init)
+    KEEP = {"asarray", "asanyarray", "array", "ascontiguousarray", "astype", "float64", "atleast_1d", "copy", "asarray_chkfinite"}
+    REORDER = {"compress", "delete", "extract", "unique", "sort", "sorted", "take", "choice", "permutation", "shuffle", "nonzero", "where", "dropna", "flatnonzero"}
+
+    def aligned(e, param) -> bool | None:
+        e = symx.strip_wrappers(e)
+        if isinstance(e, ast.Name):
+            return e.id == param
+        if isinstance(e, ast.Constant) and e.value is None:
+            return True
+        if isinstance(e, ast.Call):
+            nm = (dotted(e.func) or unparse(e.func)).split(".")[-1]
+            if nm in KEEP:
+                inner = e.func.value if isinstance(e.func, ast.Attribute) and (dotted(e.func.value) or "").split(".")[0] not in ("np", "numpy") else (e.args[0] if e.args else None)
+                return aligned(inner, param) if inner is not None else None
+            if nm in REORDER:
+                return False
+            return None
+        if isinstance(e, ast.Subscript):
+            return False  # a selection of rows of one array on its own
+        if isinstance(e, ast.IfExp):
+            a_, b_ = aligned(e.body, param), aligned(e.orelse, param)
+            return False if False in (a_, b_) else (True if a_ and b_ else None)
+        return None
+
+    n_attr = 0
+    for p in symx.explore(prog, init, inline=symx.inline_private_helpers(prog)):
+        for ev in p.events:
+            if ev.kind == "store" and isinstance(ev.expr, ast.Attribute) and ev.expr.attr in ("weights", "redshifts") and unparse(ev.expr.value) == "self":
+                n_attr += 1
+                v = aligned(ev.value, ev.expr.attr)
+                if v is False:
+                    res.violation(
+                        "C16.R3",
+                        init,
+                        ev.node,
+                        f"self.{ev.expr.attr} is stored as {unparse(ev.value)[:70]}: rows are selected / reordered in this array independently of the other attribute array, so row k of the weights no longer "
+                        "belongs to row k of the redshifts and a common index pairs values of different source rows",
+                        key_extra=f"attribute-array-filtered-{ev.expr.attr}",
+                    )
+                elif v is None:
+                    raise AnalysisError(f"C16.R3: cannot decide whether `self.{ev.expr.attr} = {unparse(ev.value)[:60]}` keeps the rows of the input aligned")
+    if n_attr < 2:
+        raise AnalysisError("C16.R3: the constructor no longer stores the weights and redshifts arrays")
+    if not any(f.rule == "C16.R3" and "attribute-array-filtered" in f.key for f in res.findings):
+        res.ok("C16.R3", res.site(init, "stored arrays"), "weights and redshifts are stored as given (row k of both belongs to source row k)")
     gs = base.methods.get("get_data_size")
     if gs is not None:
         res.touch(gs)
-        from .. import symx
 
         attrs = ("self.weights", "self.redshifts")
         facts = {}
